@@ -7,6 +7,8 @@ def explore(run, lean):
     fabric_corr.explore_fe_order(run, 200 if run.tier == "quick" else 5000)
     fabric_corr.explore_heap(run, 150 if run.tier == "quick" else 4000)
     pubsub_corr.explore_publish_order(run, "C08", 16 if run.tier == "quick" else 400)
+    # one consumer per fabric queue is what keeps the order: delivery threads that die (a subscriber raises) and are restarted
+    fabric_corr.explore_faults(run, "C08", 40 if run.tier == "quick" else 1000)
     run.extra["rule"] = ("scenarios: 1-4 subscriber queues (plain deques and active-object LockingDeques, several of them empty = equal "
                          "contents), one or two client threads issuing subscribe/publish/start/stop/clear/is_alive (start/stop/clear "
                          "from one thread only); half of them structured (subscribe*, publish* before the first start = maximal "
